@@ -34,8 +34,13 @@ LEVEL_TEXT = ("Lean 4 theorems over a chunk-metadata model of a pipeline languag
               "compared with NumPy (shape, dtype, values), with graph optimisation on and off. `fuse_slice_index_map`: for "
               "all non-negative slices a (positive step), b, all lengths n and positions j, element j of x[a][b] and of "
               "x[fuse_slice(a, b)] come from the same source position (and end together), so the getitem chains that the "
-              "array optimiser fuses return blocks of unchanged length; fuse_slice is diffed against the model and chains of "
-              "2-3 basic slices (steps 1-3, explicit stops inside the selection, integer indices) are computed optimised / "
+              "array optimiser fuses return blocks of unchanged length; `fuse_tuple_index_map(_bounded)`: the same for the "
+              "walk over two index TUPLES of integers, slices and None (any lengths, None anywhere; what _optimize_slices "
+              "passes): whenever fuse_slice(a, b) returns r, every coordinate c of x[r] and of x[a][b] names the same source "
+              "element and is outside one exactly when outside the other (x[a]'s shape via `applyB_isSome_iff`). fuse_slice "
+              "is diffed against the model (slices and tuples, NotImplementedError/IndexError outcomes included), the "
+              "model's meaning of an index tuple is diffed against NumPy, and chains of 2-3 getitems (steps 1-3, explicit "
+              "stops inside the selection, integer indices, new axes, one integer array) are computed optimised / "
               "unoptimised / per block.")
 LEVEL_NOTE = ("Trusted: Lean kernel + standard axioms; the metadata model tied by a function-level diff of lazy chunks; the "
               "shape behaviour of the per-block NumPy kernels (broadcasting, transpose, sum, expand_dims, concatenate) is "
@@ -226,6 +231,9 @@ def _check_blocks(ctx, d, x, what, maxblocks=24):
         # not part of C25 (lazy vs computed); NumPy's dtype is the business of the per-operation properties
         # (seen: da.tensordot(int32, int32) is int64 lazily AND computed, NumPy gives int32)
         ctx.note("dtype-differs-from-numpy-but-lazy==computed")
+        # with another dtype the values may legitimately differ (uint8 wrap-around vs uint64): from here on the
+        # reference for the blocks is the computed full result itself
+        x = full
     same = np.allclose(full, x, equal_nan=True) if x.dtype.kind in "fc" else np.array_equal(full, x)
     if not same:
         ctx.fail(what + ": computed values differ from NumPy", observed=full.tolist() if full.size < 30 and x.dtype.kind in "biuf" else None,
@@ -415,12 +423,163 @@ def gen_fuseslice(rng):
 
 
 # ------------------------------------------------------------------------------------------------
+# fuse_slice on index TUPLES (what _optimize_slices passes): the walk over both tuples against Lean `fuseTuple`, the
+# model's meaning of an index tuple (`applyB`, `shapeIx`) against NumPy, and x[a][b] == x[fuse_slice(a, b)] on NumPy
+# ------------------------------------------------------------------------------------------------
+
+def _ix_py(i):
+    return slice(*i) if isinstance(i, list) else (list(i["list"]) if isinstance(i, dict) else i)
+
+
+def _ix_sexp(i):
+    """harness index element -> model `Ix` (only for integers, slices and None)"""
+    if i is None:
+        return Sym("newaxis")
+    if isinstance(i, int):
+        return [Sym("i"), i]
+    if i == [None, None, None]:
+        return Sym("full")
+    return [Sym("s"), i[0] or 0, i[1], i[2] or 1]
+
+
+def _ix_of_real(v):
+    """an element of fuse_slice's result -> what the driver prints for it"""
+    if v is None:
+        return Sym("newaxis")
+    if isinstance(v, slice):
+        if v == slice(None, None, None):
+            return Sym("full")
+        return [Sym("s")] + _sl_canon(v)
+    return [Sym("i"), int(v)]
+
+
+def case_fusetuple(ctx, inp):
+    import numpy as np
+    from dask.array.optimization import fuse_slice
+    dims, a, b = inp["dims"], inp["a"], inp["b"]
+    x = np.arange(int(np.prod(dims)), dtype="i8").reshape(dims)
+    pa, pb = tuple(_ix_py(i) for i in a), tuple(_ix_py(i) for i in b)
+    xa = x[pa]
+    want = xa[pb]
+    fancy = any(isinstance(i, dict) for i in a + b)
+    try:
+        real = fuse_slice(pa, pb)
+        outcome = "ok"
+    except NotImplementedError:
+        real, outcome = None, "notimpl"
+    except IndexError:
+        real, outcome = None, "indexerr"
+    # integer and integer array in the inner tuple: NumPy moves the array's axis first (fixed 9b94af4: refused now)
+    sig = "fuse_slice:list+int-inner-tuple:axis-order" if fancy and any(isinstance(i, int) for i in a) \
+        and any(isinstance(i, dict) for i in a) else None
+    if outcome == "ok":
+        try:
+            got = x[real]
+        except Exception as e:
+            ctx.fail("x[fuse_slice(a, b)] raises where x[a][b] is fine: " + type(e).__name__ + ": " + str(e)[:120], sig=sig)
+            return
+        if got.shape != want.shape:
+            ctx.fail("x[fuse_slice(a, b)] and x[a][b] have different shapes", observed=list(got.shape),
+                     expected=list(want.shape), sig=sig)
+            return
+        if not np.array_equal(got, want):
+            ctx.fail("x[fuse_slice(a, b)] != x[a][b]", sig=sig)
+            return
+    ctx.branch("fusetuple-" + outcome)
+    if fancy:
+        ctx.branch("fusetuple-with-integer-array-" + outcome)
+        return
+    if any(isinstance(i, int) and i < 0 for i in b):
+        ctx.branch("fusetuple-negative-int-" + outcome)
+        return
+    coords = [list(c) for c in itertools.product(*[range(n + 1) for n in want.shape])]
+    if len(coords) > 14:
+        coords = ctx.rng.sample(coords, 14)
+    m = ctx.lean(Sym("fusetuple"), dims, [_ix_sexp(i) for i in a], [_ix_sexp(i) for i in b], coords)
+    if m[0] != "ok":
+        ctx.eq("fuse_slice(tuple, tuple): outcome", str(m[0]), outcome)
+        return
+    if outcome != "ok":
+        ctx.disagree("fuse_slice(tuple, tuple): outcome", "ok", outcome)
+        return
+    _, r, pairs_ok, steps_pos, sh_a, sh_r, at_r, at_chain = m
+    ctx.eq("fuse_slice(tuple, tuple)", r, [_ix_of_real(v) for v in real])
+    # the hypotheses of fuse_tuple_index_map hold on every input NumPy accepts
+    ctx.eq("pairsOK / stepsPos on a valid input", [pairs_ok, steps_pos], [True, True])
+    # the model's meaning of an index tuple against NumPy
+    ctx.eq("shapeIx dims a", sh_a, list(xa.shape))
+    ctx.eq("shapeIx dims fuse(a, b)", sh_r, list(want.shape))
+
+    def src(c):
+        if any(ci >= n for ci, n in zip(c, want.shape)):
+            return None
+        return [int(v) for v in np.unravel_index(int(want[tuple(c)]), dims)]
+    expect = [src(c) for c in coords]
+    ctx.eq("applyB dims fuse(a, b): source coordinates", at_r, expect)
+    ctx.eq("applyB shape(x[a]) b >>= applyB dims a: source coordinates", at_chain, expect)
+    if any(i is None for i in a):
+        ctx.branch("fusetuple-newaxis-in-a")
+    if any(i is None for i in b):
+        ctx.branch("fusetuple-newaxis-in-b")
+    if len(a) != len(b):
+        ctx.branch("fusetuple-uneven")
+    if any(isinstance(i, int) for i in b):
+        ctx.branch("fusetuple-int-in-b")
+
+
+def gen_fusetuple(rng):
+    import numpy as np
+
+    def rand_index(shape, with_list):
+        idx = []
+        for ln in shape:
+            t = rng.random()
+            if ln == 0 or t < 0.2:
+                idx.append([None, None, None])
+            elif t < 0.36:
+                idx.append(rng.randrange(ln))
+            elif t < 0.44 and with_list:
+                idx.append({"list": [rng.randrange(ln) for _ in range(rng.randint(1, 3))]})
+                with_list = False
+            else:
+                st = rng.choice([None, 1, 1, 2, 3])
+                s0 = rng.choice([None, 0, rng.randrange(ln), rng.randrange(ln + 1)])
+                e = rng.choice([None, rng.randint(s0 or 0, ln), rng.randint(0, ln + 2)])
+                idx.append([s0, e, st])
+        for _ in range(rng.choice([0, 0, 0, 1, 1, 2])):
+            idx.insert(rng.randint(0, len(idx)), None)
+        if rng.random() < 0.2:
+            while idx and idx[-1] == [None, None, None]:      # not full length (dask's own tuples always are)
+                idx.pop()
+        return idx
+    while True:
+        dims = [rng.randint(1, 6) for _ in range(rng.randint(1, 3))]
+        with_list = rng.random() < 0.3
+        a = rand_index(dims, with_list and rng.random() < 0.6)
+        probe = np.zeros(dims, dtype="i1")[tuple(_ix_py(i) for i in a)]
+        if probe.ndim == 0:
+            continue
+        b = rand_index(probe.shape, with_list and rng.random() < 0.6)
+        if not a or not b:
+            continue
+        if rng.random() < 0.08:
+            # a negative integer in b (NumPy accepts it, fuse_slice must refuse): checked by the NumPy oracle only
+            ax = [k for k, (i, n) in enumerate(zip([i for i in b if i is not None], probe.shape)) if isinstance(i, int)]
+            pos = [k for k, i in enumerate(b) if i is not None]
+            if ax:
+                k = rng.choice(ax)
+                b[pos[k]] = b[pos[k]] - probe.shape[k]
+        return {"dims": dims, "a": a, "b": b}
+
+
+# ------------------------------------------------------------------------------------------------
 # API level: chains of basic slices, graph optimisation ON (slices are fused) and OFF
 # ------------------------------------------------------------------------------------------------
 
 def _apply_chain(x, chain):
+    """an index element is [start, stop, step] (slice), an int, None (newaxis) or {"list": [...]} (integer-array index)"""
     for idx in chain:
-        x = x[tuple(slice(*i) if isinstance(i, list) else i for i in idx)]
+        x = x[tuple(slice(*i) if isinstance(i, list) else (i["list"] if isinstance(i, dict) else i) for i in idx)]
     return x
 
 
@@ -486,21 +645,27 @@ def case_slicechain(ctx, inp):
 
 
 def gen_slicechain(rng):
+    import numpy as np
     nd = rng.choice([1, 1, 2, 2, 3])
     shape = [rng.randint(4, 14) if i < 2 else rng.randint(2, 4) for i in range(nd)]
     chunks = [U.rand_comp(rng, s) if rng.random() < 0.6 else [s] for s in shape]
-    cur = list(shape)          # lengths of the axes still present
+    probe = np.zeros(shape, dtype="i1")      # tracks the shape after every getitem (NumPy is the reference anyway)
     chain = []
+    fancy_done = False
     for step_no in range(rng.choice([2, 2, 3])):
+        cur = list(probe.shape)
+        if not cur:
+            break
         idx = []
-        new = []
         for ax, ln in enumerate(cur):
             t = rng.random()
             if ln == 0 or t < 0.2:
                 idx.append([None, None, None])
-                new.append(ln)
-            elif t < 0.32 and len(cur) > 1 and ln > 0:
+            elif t < 0.32 and len(cur) > 1:
                 idx.append(rng.randrange(ln))            # integer index drops the axis
+            elif t < 0.40 and not fancy_done:
+                idx.append({"list": [rng.randrange(ln) for _ in range(rng.randint(1, 3))]})   # one integer-array index
+                fancy_done = True
             else:
                 st = rng.choice([1, 1, 2, 2, 3])
                 start = rng.choice([None, 0, rng.randint(0, max(0, ln - 1)), rng.randint(0, max(0, ln // 2))])
@@ -508,15 +673,19 @@ def gen_slicechain(rng):
                 # explicit stop strictly inside the selection most of the time
                 stop = rng.choice([None, rng.randint(s0, ln), rng.randint(s0, max(s0, ln - 1)), rng.randint(s0, max(s0, (s0 + ln) // 2))])
                 idx.append([start, stop, None if st == 1 and rng.random() < 0.5 else st])
-                new.append(len(range(ln)[slice(start, stop, st)]))
+        if any(isinstance(i, dict) for i in idx):
+            # integer + integer-array index in one getitem: NumPy moves the broadcast axis to the front when a slice
+            # separates them, dask keeps it in place (known finding getitem:int+fancy-split:axis-order, owned by C20)
+            idx = [[i, i + 1, None] if isinstance(i, int) else i for i in idx]
+        if rng.random() < 0.25:
+            idx.insert(rng.randint(0, len(idx)), None)   # a new axis (in the first getitem too: then later ones index it)
         chain.append(idx)
-        cur = new
-        if not cur:
-            break
+        probe = _apply_chain(probe, [idx])
     return {"shape": shape, "chunks": chunks, "chain": chain}
 
 
-CASES = {"modelled": case_modelled, "pipeline": case_pipeline, "fuseslice": case_fuseslice, "slicechain": case_slicechain}
+CASES = {"modelled": case_modelled, "pipeline": case_pipeline, "fuseslice": case_fuseslice, "fusetuple": case_fusetuple,
+         "slicechain": case_slicechain}
 
 
 def generate(ctx):
@@ -529,6 +698,20 @@ def generate(ctx):
     yield "slicechain", {"shape": [4, 9], "chunks": [[2, 2], [9]], "chain": [[3, [1, None, None]], [[2, 7, 2]]]}
     for _ in range(ctx.n(400, 4000)):
         yield "fuseslice", gen_fuseslice(rng)
+    yield "fusetuple", {"dims": [9, 5, 4], "a": [[1, None, None], 3, [None, None, None]],
+                        "b": [None, [None, 6, 2], [None, None, None]]}
+    yield "fusetuple", {"dims": [4, 5, 6], "a": [[None, None, None], {"list": [1, 2]}, [None, None, None]],
+                        "b": [0, [None, None, None], [None, None, None]]}      # x[:, [1, 2], :][0]
+    yield "fusetuple", {"dims": [4, 5, 6], "a": [[None, None, None], [None, None, None], {"list": [1, 2]}],
+                        "b": [0, [None, None, None], [None, None, None]]}      # x[:, :, [1, 2]][0] must not be fused
+    yield "fusetuple", {"dims": [4, 5], "a": [{"list": [1, 2, 3]}, [None, None, None]],
+                        "b": [[None, None, None], {"list": [0, 1]}]}           # two integer arrays on different axes
+    yield "fusetuple", {"dims": [7], "a": [[1, None, 2]], "b": [-1]}
+    yield "fusetuple", {"dims": [4, 5, 6], "a": [3, [None, None, None], {"list": [0, 1, 2]}],
+                        "b": [[0, 2, None], [None, None, None]]}               # x[3, :, [0, 1, 2]] has shape (3, 5)
+    yield "fusetuple", {"dims": [6, 5], "a": [0, {"list": [4, 3]}], "b": [None, [None, None, None]]}
+    for _ in range(ctx.n(400, 6000)):
+        yield "fusetuple", gen_fusetuple(rng)
     for _ in range(ctx.n(80, 1100)):
         yield "slicechain", gen_slicechain(rng)
     for _ in range(ctx.n(170, 2200)):
